@@ -139,11 +139,15 @@ impl Monitor for C06 {
 	fn level(&self) -> &'static str {
 		"fault_enumeration"
 	}
+	fn address_space_limit(&self) -> Option<u64> {
+		// the seeds are a few KB: nothing the reader does with them needs anywhere near 2 GiB
+		Some(2 << 30)
+	}
 	fn rule(&self) -> String {
-		format!("inputs = {} corruption operators ({}) applied with fresh randomness to {} small valid seed replays covering the three framing regimes, ICs/non-ICs, gecko/no gecko, end/no end/doubled end, metadata/none; each mutated input is executed under {} modes ({}); plus I/O-fault enumeration: for every seed, mode and error kind, an injected io::Error at EVERY read call k (until the fault is no longer delivered). Monitors: panic hook+catch_unwind (any panic = violation), process death observed by the driver with write-ahead attribution (stack overflow/abort = violation), non-consuming loop (source polled at EOF > {} times, or thread burning >= 20 s CPU / sleeping with static source counters), delivered fault must surface as Err; history control: right after every 16th hostile input and at the end of each case the pristine seed is read again in the same process and must still serialise to itself. One evaluation = one (input, mode) execution. distinct = (operator, regime) x outcome classes + distinct error messages reached.", OPS.len(), OPS.join(", "), self.seeds.len(), MODES.len(), MODES.join(", "), crate::iofault::EOF_POLL_LIMIT)
+		format!("inputs = {} corruption operators ({}) applied with fresh randomness to {} small valid seed replays covering the three framing regimes, ICs/non-ICs, gecko/no gecko, end/no end/doubled end, metadata/none; each mutated input is executed under {} modes ({}); plus I/O-fault enumeration: for every seed, mode and error kind, an injected io::Error at EVERY read call k (until the fault is no longer delivered). Monitors: panic hook+catch_unwind (any panic = violation), process death observed by the driver with write-ahead attribution (stack overflow/abort = violation); every worker process runs under RLIMIT_AS = 2 GiB (a memory-limited host), so a reader that sizes an allocation from a length field of the file dies with an allocation-failure abort, which counts when the block asked for is >= 16 MiB; non-consuming loop (source polled at EOF > {} times, or thread burning >= 20 s CPU / sleeping with static source counters), delivered fault must surface as Err; history control: right after every 16th hostile input and at the end of each case the pristine seed is read again in the same process and must still serialise to itself. One evaluation = one (input, mode) execution. distinct = (operator, regime) x outcome classes + distinct error messages reached.", OPS.len(), OPS.join(", "), self.seeds.len(), MODES.len(), MODES.join(", "), crate::iofault::EOF_POLL_LIMIT)
 	}
 	fn assumptions(&self) -> Vec<String> {
-		vec!["'all byte strings' is explored by structure-aware operators x positions; unreached reader branches carry no verdict".into(), "built with debug-assertions and overflow-checks on (as cargo test does): arithmetic overflow panics count".into(), "large-but-successful allocations are observations, not violations; allocation-failure aborts are inconclusive".into()]
+		vec!["'all byte strings' is explored by structure-aware operators x positions; unreached reader branches carry no verdict".into(), "built with debug-assertions and overflow-checks on (as cargo test does): arithmetic overflow panics count".into(), "allocation-failure aborts count only under the deliberate 2 GiB address-space limit and only for blocks >= 16 MiB (the inputs are a few KB); any other allocation failure is inconclusive; the sanitizer lanes (ASan, valgrind, Miri) run without the limit".into()]
 	}
 	fn lanes(&self, _tier: Tier) -> Vec<Lane> {
 		// Miri: 48 of the 324 (seed, operator) pairs per run, rotated by nothing but the list order
